@@ -117,6 +117,11 @@ func (g *G) sliceLen() int {
 			lo = hi
 		}
 		n := rapid.IntRange(lo, hi).Draw(g.T, g.name("biglen"))
+		if g.bigCls == 3 && hi >= 65 && rapid.IntRange(0, 3).Draw(g.T, g.name("around64")) == 0 {
+			// the decoder pre-allocates lists of up to 64 elements: the lengths on either side and 64 itself
+			n = rapid.IntRange(63, 65).Draw(g.T, g.name("len63-65"))
+			g.lbl("big:len63-65")
+		}
 		g.lbl("big:" + LenClassName[LenClass(n)])
 		return n
 	}
